@@ -58,10 +58,11 @@ def memset (dst : Buf) (d c n : Nat) : Buf := splice dst d (List.replicate n c)
 /-- conversion of the `int` argument to the character type (`bits` wide), as an unsigned unit -/
 def toUnit (bits : Nat) (ch : Int) : Nat := (ch % ((2 ^ bits : Nat) : Int)).toNat
 
-/-- value by which units are ordered: `unsigned char` for the byte functions (7.24.4), the signed
-    value of `wchar_t` (a 32-bit `int` here) for the wide ones -/
-def key (bits : Nat) (signed : Bool) (u : Nat) : Int :=
-  if signed && decide (u ≥ 2 ^ (bits - 1)) then (u : Int) - (2 ^ bits : Nat) else (u : Int)
+/-- value by which units are ordered: the unit itself — units are held as unsigned values, and the byte
+    functions compare as `unsigned char` (7.24.4) — or, for the wide functions, the value of `wchar_t` (a signed
+    32-bit `int` here): the number congruent to the stored pattern modulo 2^bits that lies in
+    [-2^(bits-1), 2^(bits-1)), i.e. the balanced remainder -/
+def key (bits : Nat) (signed : Bool) (u : Nat) : Int := if signed then Int.bmod u (2 ^ bits) else u
 
 /-- sign of the difference of the first pair of units that differ (7.24.4) -/
 def cmp (k : Nat → Int) : List Nat → List Nat → Int
